@@ -434,7 +434,7 @@ fn classify_into_stream(f: &syn::ImplItemFn) -> (String, Vec<String>) {
         other => return (format!("unknown:second statement {}", norm(other)), vec![]),
     };
     let ls = &lp.body.stmts;
-    if ls.len() != 3 {
+    if ls.len() != 3 && ls.len() != 5 {
         return (format!("unknown:loop has {} statements", ls.len()), vec![]);
     }
     // let X = src.read_packet().await?;
@@ -452,28 +452,7 @@ fn classify_into_stream(f: &syn::ImplItemFn) -> (String, Vec<String>) {
     if ack != "src.write_packet(&packets::Ack{}).await?;" {
         return (format!("unknown:loop ack {}", ack), vec![]);
     }
-    let m = match &ls[2] {
-        syn::Stmt::Expr(syn::Expr::Match(m), _) => m,
-        other => return (format!("unknown:loop stmt2 {}", norm(other)), vec![]),
-    };
-    if norm(&m.expr) != var {
-        return (format!("unknown:match on {}", norm(&m.expr)), vec![]);
-    }
-    if m.arms.len() != 2 {
-        return (format!("unknown:{} match arms", m.arms.len()), vec![]);
-    }
-    let final_body = norm(&m.arms[0].body);
-    if final_body != format!("{{yield{var};break;}}") {
-        return (format!("unknown:final arm body {}", final_body), vec![]);
-    }
-    if norm(&m.arms[1].pat) != "_" || norm(&m.arms[1].body) != format!("yield{var}") {
-        return (format!("unknown:default arm {} => {}", norm(&m.arms[1].pat), norm(&m.arms[1].body)), vec![]);
-    }
-    if m.arms[0].guard.is_some() {
-        return ("unknown:guard on final arm".into(), vec![]);
-    }
-    // finals: variant names in the or-pattern
-    let mut finals = vec![];
+    // variant names in an or-pattern of `Variant(_)`
     fn collect(p: &syn::Pat, out: &mut Vec<String>) -> bool {
         match p {
             syn::Pat::Or(o) => o.cases.iter().all(|c| collect(c, out)),
@@ -488,8 +467,69 @@ fn classify_into_stream(f: &syn::ImplItemFn) -> (String, Vec<String>) {
             _ => false,
         }
     }
-    if !collect(&m.arms[0].pat, &mut finals) {
-        return (format!("unknown:final pattern {}", norm(&m.arms[0].pat)), vec![]);
+    let mut finals = vec![];
+    if ls.len() == 5 {
+        // the same loop written as
+        //   let F = matches!(X, FINALS); yield X; if F { break; }
+        let flag = match &ls[2] {
+            syn::Stmt::Local(l) => {
+                let Some(init) = l.init.as_ref() else { return ("unknown:flag without value".into(), vec![]) };
+                let syn::Expr::Macro(m) = &*init.expr else { return (format!("unknown:flag {}", norm(&init.expr)), vec![]) };
+                if !m.mac.path.is_ident("matches") {
+                    return (format!("unknown:flag macro {}", norm(&m.mac.path)), vec![]);
+                }
+                let parsed = m.mac.parse_body_with(|ps: syn::parse::ParseStream| {
+                    let e: syn::Expr = ps.parse()?;
+                    let _: syn::Token![,] = ps.parse()?;
+                    let p = syn::Pat::parse_multi_with_leading_vert(ps)?;
+                    let _: Option<syn::Token![,]> = ps.parse()?;
+                    if !ps.is_empty() {
+                        return Err(ps.error("guard or extra tokens"));
+                    }
+                    Ok((e, p))
+                });
+                let Ok((e, pat)) = parsed else { return ("unknown:matches! arguments".into(), vec![]) };
+                if norm(&e) != var || !collect(&pat, &mut finals) {
+                    return (format!("unknown:matches!({}, {})", norm(&e), norm(&pat)), vec![]);
+                }
+                norm(&l.pat)
+            }
+            other => return (format!("unknown:loop stmt2 {}", norm(other)), vec![]),
+        };
+        if norm(&ls[3]) != format!("yield{var};") {
+            return (format!("unknown:loop stmt3 {}", norm(&ls[3])), vec![]);
+        }
+        if norm(&ls[4]) != format!("if{flag}{{break;}}") {
+            return (format!("unknown:loop stmt4 {}", norm(&ls[4])), vec![]);
+        }
+        return ("loop".into(), finals);
+    }
+    let m = match &ls[2] {
+        syn::Stmt::Expr(syn::Expr::Match(m), _) => m,
+        other => return (format!("unknown:loop stmt2 {}", norm(other)), vec![]),
+    };
+    if norm(&m.expr) != var {
+        return (format!("unknown:match on {}", norm(&m.expr)), vec![]);
+    }
+    if m.arms.len() < 2 {
+        return (format!("unknown:{} match arms", m.arms.len()), vec![]);
+    }
+    // one or several arms `FINALS => { yield X; break; }`, then `_ => yield X`
+    let (last, firsts) = m.arms.split_last().unwrap();
+    for arm in firsts {
+        let final_body = norm(&arm.body);
+        if final_body != format!("{{yield{var};break;}}") {
+            return (format!("unknown:final arm body {}", final_body), vec![]);
+        }
+        if arm.guard.is_some() {
+            return ("unknown:guard on final arm".into(), vec![]);
+        }
+        if !collect(&arm.pat, &mut finals) {
+            return (format!("unknown:final pattern {}", norm(&arm.pat)), vec![]);
+        }
+    }
+    if norm(&last.pat) != "_" || last.guard.is_some() || (norm(&last.body) != format!("yield{var}") && norm(&last.body) != format!("{{yield{var};}}")) {
+        return (format!("unknown:default arm {} => {}", norm(&last.pat), norm(&last.body)), vec![]);
     }
     ("loop".into(), finals)
 }
@@ -712,6 +752,13 @@ fn main() {
                 }
                 _ => {}
             }
+        }
+        // canonical order of the final variants: the order in which the reply enum declares them (the or-pattern may list
+        // them in any order), each once
+        if let Some(en) = enums.iter().find(|e| e.name == output) {
+            let pos = |f: &String| en.variants.iter().position(|(v, _)| v == f).unwrap_or(usize::MAX);
+            finals.sort_by_key(pos);
+            finals.dedup();
         }
         seqs.push(Seq { name, input, output, kind, finals });
     }
